@@ -67,7 +67,8 @@ def run(ctx, rep, model=True):
     n = 14 if ctx.quick else 80
     for i in range(n):
         spec = plotgen.random_spec(ctx.rng, nf=[2, 3, 1, 4][i % 4], data=["tags", "bits"][i % 2], B=2,
-                                   layout=["scatter", "files", "perm", "scatter", "files", "mono", "scatter"][i % 7], exact=(i % 3 != 2))
+                                   layout=["scatter", "files", "perm", "scatter", "files", "mono", "scatter"][i % 7], exact=(i % 3 != 2),
+                                   scale=[None, None, "centred", None, "far", "centred", "tiny"][i % 7])
         run_spec(ctx, rep, spec, model)
         if len(rep.violations) >= 10:
             return
